@@ -7,17 +7,19 @@ type nodeCfg struct {
 }
 
 var nodes = map[string]nodeCfg{
-	"avx2":    {Bin: "asm"},
-	"avx":     {Bin: "asm", Env: []string{"GODEBUG=cpu.avx2=off"}},
-	"sse":     {Bin: "asm", Env: []string{"GODEBUG=cpu.avx2=off,cpu.avx=off"}},
-	"scalar":  {Bin: "asm", Env: []string{"GODEBUG=cpu.avx2=off,cpu.avx=off,cpu.ssse3=off"}},
-	"noaes":   {Bin: "asm", Env: []string{"GODEBUG=cpu.aes=off"}},
-	"noclmul": {Bin: "asm", Env: []string{"GODEBUG=cpu.pclmulqdq=off"}},
-	"noadx":   {Bin: "asm", Env: []string{"GODEBUG=cpu.adx=off"}},
-	"nobmi2":  {Bin: "asm", Env: []string{"GODEBUG=cpu.bmi2=off"}},
-	"aesni1":  {Bin: "asm", Env: []string{"FORCE_SM4BLOCK_AESNI=1"}},
-	"purego":  {Bin: "purego"},
-	"race":    {Bin: "race"},
+	"avx2":         {Bin: "asm"},
+	"avx":          {Bin: "asm", Env: []string{"GODEBUG=cpu.avx2=off"}},
+	"sse":          {Bin: "asm", Env: []string{"GODEBUG=cpu.avx2=off,cpu.avx=off"}},
+	"scalar":       {Bin: "asm", Env: []string{"GODEBUG=cpu.avx2=off,cpu.avx=off,cpu.ssse3=off"}},
+	"noaes":        {Bin: "asm", Env: []string{"GODEBUG=cpu.aes=off"}},
+	"noclmul":      {Bin: "asm", Env: []string{"GODEBUG=cpu.pclmulqdq=off"}},
+	"noadx":        {Bin: "asm", Env: []string{"GODEBUG=cpu.adx=off"}},
+	"nobmi2":       {Bin: "asm", Env: []string{"GODEBUG=cpu.bmi2=off"}},
+	"aesni1":       {Bin: "asm", Env: []string{"FORCE_SM4BLOCK_AESNI=1"}},
+	"purego":       {Bin: "purego"},
+	"race":         {Bin: "race"},
+	"race-noclmul": {Bin: "race", Env: []string{"GODEBUG=cpu.pclmulqdq=off"}},
+	"race-noaes":   {Bin: "race", Env: []string{"GODEBUG=cpu.aes=off"}},
 }
 
 var binTags = map[string][]string{
